@@ -884,7 +884,56 @@ def views_ir(rng):
     return ir
 
 
+def releases_ir(rng):
+    """Directed programs for the implicit resets: objects of every qubit-owning class are put into basis or
+    superposition states, partly measured, and die (destroy, block exit, end of main); the indices they
+    free are taken by new declarations and objects, which are measured right away."""
+    ir = [dict(k="ops")]
+    uid = [0]
+
+    def fresh(p):
+        uid[0] += 1
+        return "%s%d" % (p, uid[0])
+    FIELDS = {"H1": [("f", "q"), ("fe", "qs", 0), ("fe", "qs", 1)], "H1S": [("f", "q"), ("fe", "qs", 0), ("fe", "qs", 1)],
+              "HT": [("f", "tq")], "HA": [("fe", "ta", 0), ("fe", "ta", 1), ("fe", "ta", 2)],
+              "HP": [("f", "cq"), ("f", "mq"), ("f", "pq")], "HG": [("f", "gq")]}
+
+    def life(depth):
+        cls = rng.choice(sorted(FIELDS))
+        n = fresh("o")
+        body = [dict(k="new", name=n, cls=cls, via=rng.choice(["new", "new", "func"]) if cls in ("H1", "HT", "HA") else "new")]
+        refs = [(f[0], n) + tuple(f[1:]) for f in FIELDS[cls]]
+        for q in refs:
+            g = rng.choice(["x", "x", "h", None])
+            if g:
+                body.append(dict(k="gate", g=g, via="direct", qs=[q], theta=None))
+        if len(refs) > 1 and rng.random() < 0.4:
+            body.append(dict(k="gate", g="cx", via="direct", qs=[refs[0], refs[1]], theta=None))
+        for q in refs:
+            if rng.random() < 0.5:
+                b = fresh("b")
+                body.append(dict(k="measure", q=q, form=rng.choice(["stmt", "expr"]), bit=None))
+                body[-1]["bit"] = b if body[-1]["form"] == "expr" else None
+        if rng.random() < 0.6:
+            body.append(dict(k="destroy", name=n))
+        return dict(k="block", body=body) if depth or rng.random() < 0.5 else body
+
+    for _ in range(rng.randint(2, 4)):
+        x = life(0)
+        ir += x if isinstance(x, list) else [x]
+        # whoever gets the freed indices must find them in |0>
+        if rng.random() < 0.7:
+            v = fresh("a")
+            ir.append(dict(k="decl", name=v, n=None, tracked=False))
+            ir.append(dict(k="measure", q=("v", v), form="expr", bit=fresh("b")))
+            ir.append(dict(k="echo_bit", bit=ir[-1]["bit"]))
+    return ir
+
+
 def generate(rng, profile, length=None, shots_annotation=None, max_qubits=6):
+    if profile == "releases":
+        ir = releases_ir(rng)
+        return ir, Renderer(shots_annotation).render(ir)
     if profile == "views":
         ir = views_ir(rng)
         return ir, Renderer(shots_annotation).render(ir)
@@ -1558,6 +1607,8 @@ def run_language_path(ctx, prop):
     cases = [dict(profile=profile, index=i) for i in range(n)]
     if prop == "C02":
         cases += [dict(profile="views", index=i, shots=(3 if i % 2 else 0)) for i in range(ctx.n(120, 2000))]
+    if prop in ("C04", "C03"):
+        cases += [dict(profile="releases", index=i) for i in range(ctx.n(150, 2500))]
 
     def one(case):
         return case, check_case(ctx, prop, binary, case)
